@@ -57,6 +57,7 @@ struct ConnState {
     fault: Option<(u64, String)>,
     delay_ms: u64,
     hs_stage: u64,
+    unacked: bool, // a reply frame was handed to the client and not acknowledged yet
 }
 
 pub struct Term {
@@ -325,7 +326,12 @@ fn send_next(term: &mut Term, c: &mut ConnState, cst: &Arc<Mutex<ConnState>>) {
                 }
                 "malformed" => {
                     // the control field of the expected frame with a body its parser rejects
-                    let b: Vec<u8> = if frame[..2] == [0x80, 0x00] { vec![0x84, 0x00, 0x00] } else { vec![frame[0], frame[1], 0x02, 0x06, 0x05] };
+                    let b: Vec<u8> = match (frame[0], frame[1]) {
+                        (0x80, 0x00) => vec![0x84, 0x00, 0x00],
+                        (0x06, 0x0f) => vec![0x06, 0x0f, 0x02, 0x29, 0x00], // BMP 29 needs four bytes / the device id eight
+                        (0x04, 0x0f) => vec![0x04, 0x0f, 0x02, 0x04, 0x00], // BMP 04 needs six bytes
+                        (a, b) => vec![a, b, 0x00],                         // a mandatory positional field is missing
+                    };
                     c.rbuf.extend(b);
                     wake(c);
                 }
@@ -350,6 +356,9 @@ fn send_next(term: &mut Term, c: &mut ConnState, cst: &Arc<Mutex<ConnState>>) {
             }
             return;
         }
+    }
+    if pos >= 1 {
+        c.unacked = true;
     }
     let delay = if pos == 1 { c.delay_ms } else { 0 };
     let kind = cmd_kind(&frame);
@@ -412,6 +421,7 @@ impl AsyncWrite for Conn {
             let cf = (frame[0], frame[1]);
             let name = cmd_name(cf, &frame);
             if name == "Ack" && len == 0 {
+                c.unacked = false;
                 term.log(json!({"e": "rx", "conn": c.id, "ex": c.ex, "cmd": "Ack", "raw": frame}));
                 send_next(&mut term, &mut c, &self.st);
                 continue;
@@ -429,6 +439,12 @@ impl AsyncWrite for Conn {
             } else {
                 term.plan.pop_front().unwrap_or_else(|| term.default_plan.clone())
             };
+            if c.unacked || !c.pending.is_empty() {
+                // the client starts a new exchange although the previous one was not finished on this connection
+                let id = c.id;
+                term.log(json!({"e": "abandoned", "conn": id}));
+            }
+            c.unacked = false;
             term.next_ex += 1;
             c.ex = term.next_ex;
             c.pos = 0;
